@@ -4,6 +4,7 @@ import (
 	"encoding/json"
 	"fmt"
 	"go/token"
+	"hash/fnv"
 	"os"
 	"path/filepath"
 	"sort"
@@ -29,18 +30,33 @@ type callSig struct {
 	Order []string `json:"order,omitempty"`
 }
 
-// events: the calls and field stores of fn's own body (closures and defers excluded), keyed name#k where k
-// numbers the occurrences of the same name in source order.
-func events(c *Ctx, fn *ssa.Function) map[string]ssa.Instruction {
-	type ev struct {
-		name string
-		in   ssa.Instruction
+// events: the calls and field stores of fn's own body (closures and defers excluded), grouped into classes: two
+// occurrences belong to the same class when they have the same name and their receiver / arguments (stores: target
+// and value) are described alike. Source positions play no part, so moving code about without changing the control
+// flow changes nothing.
+func events(c *Ctx, fn *ssa.Function) map[string][]ssa.Instruction {
+	out := map[string][]ssa.Instruction{}
+	sig := func(vals ...ssa.Value) string {
+		h := fnv.New32a()
+		for _, v := range vals {
+			h.Write([]byte(describeVal(v, 0)))
+			h.Write([]byte{0})
+		}
+		return fmt.Sprintf("%08x", h.Sum32())
 	}
-	var evs []ev
 	for _, b := range fn.Blocks {
 		for _, in := range b.Instrs {
 			if n := storeName(in); n != "" {
-				evs = append(evs, ev{n, in})
+				var k string
+				switch x := in.(type) {
+				case *ssa.Store:
+					k = sig(x.Addr.(*ssa.FieldAddr).X, x.Val)
+				case *ssa.MapUpdate:
+					k = sig(x.Map, x.Key)
+				case *ssa.Call:
+					k = sig(x.Call.Args...)
+				}
+				out[n+"~"+k] = append(out[n+"~"+k], in)
 				continue
 			}
 			ci, ok := in.(ssa.CallInstruction)
@@ -51,21 +67,39 @@ func events(c *Ctx, fn *ssa.Function) map[string]ssa.Instruction {
 				continue
 			}
 			if n := calleeName(c, ci.Common()); n != "" {
-				evs = append(evs, ev{n, in})
+				vals := append([]ssa.Value{}, ci.Common().Args...)
+				if ci.Common().IsInvoke() {
+					vals = append(vals, ci.Common().Value)
+				}
+				k := n + "~" + sig(vals...)
+				out[k] = append(out[k], in)
 			}
 		}
-	}
-	sort.SliceStable(evs, func(i, j int) bool { return evs[i].in.Pos() < evs[j].in.Pos() })
-	out := map[string]ssa.Instruction{}
-	k := map[string]int{}
-	for _, e := range evs {
-		k[e.name]++
-		out[fmt.Sprintf("%s#%d", e.name, k[e.name])] = e.in
 	}
 	return out
 }
 
-// orderEdges: the transitive reduction of the strict control-flow order between the events of fn.
+func countEvents(evs map[string][]ssa.Instruction) int {
+	n := 0
+	for _, l := range evs {
+		n += len(l)
+	}
+	return n
+}
+
+// classBefore: every occurrence of class a strictly precedes every occurrence of class b.
+func classBefore(a, b []ssa.Instruction) bool {
+	for _, x := range a {
+		for _, y := range b {
+			if !executesBefore(x, y) {
+				return false
+			}
+		}
+	}
+	return true
+}
+
+// orderEdges: the transitive reduction of the strict control-flow order between the event classes of fn.
 func orderEdges(c *Ctx, fn *ssa.Function) []string {
 	evs := events(c, fn)
 	if len(evs) > 150 {
@@ -76,19 +110,14 @@ func orderEdges(c *Ctx, fn *ssa.Function) []string {
 		names = append(names, n)
 	}
 	sort.Strings(names)
-	idx := map[string]int{}
-	for i, n := range names {
-		idx[n] = i
-	}
 	n := len(names)
 	before := make([][]bool, n)
-	// block-level reachability cache
 	for i := range before {
 		before[i] = make([]bool, n)
 	}
 	for i, a := range names {
 		for j, b := range names {
-			if i != j && executesBefore(evs[a], evs[b]) {
+			if i != j && classBefore(evs[a], evs[b]) {
 				before[i][j] = true
 			}
 		}
@@ -447,7 +476,7 @@ func (c *Ctx) callSigs(pkgs []string) []callSig {
 				}
 			}
 			order := orderEdges(c, fn)
-			out = append(out, callSig{Func: ir.FuncKey(fn), File: file, Callees: sortedKeys(set), Counts: counts, Order: order, NEvents: len(events(c, fn)), Returns: countReturns(fn)})
+			out = append(out, callSig{Func: ir.FuncKey(fn), File: file, Callees: sortedKeys(set), Counts: counts, Order: order, NEvents: countEvents(events(c, fn)), Returns: countReturns(fn)})
 		}
 	}
 	sort.Slice(out, func(i, j int) bool { return out[i].Func < out[j].Func })
@@ -565,7 +594,7 @@ func (c *Ctx) ruleCallRatchet(rule string, pkgs []string, fileFilter func(file s
 // ruleOrderRatchet: two steps of a function have not changed places.
 func (c *Ctx) ruleOrderRatchet(rule string, pkgs []string, fileFilter func(file string) bool, baselineFile string, min int) {
 	r := c.R
-	r.Rule(rule, "swapped-order ratchet: the committed baseline records, per function, the immediate-successor pairs (A, B) of the strict control-flow order between the calls and field stores of its body (A can be followed by B, B never by A; occurrences of the same callee are numbered in source order). If the function still performs exactly the same events and now B is strictly before A (same block earlier, or B's block dominates A's), two steps have changed places (two calls of functions that write, send and start nothing commute and are not reported) — a check after the use, a bookkeeping update before the test it depends on, a strip before the policy that may set the attribute", min)
+	r.Rule(rule, "swapped-order ratchet: the committed baseline records, per function, the immediate-successor pairs (A, B) of the strict control-flow order between the calls and field stores of its body (A can be followed by B, B never by A; occurrences are told apart by their receiver and arguments, not by where they stand in the source, and occurrences that look alike form one class ordered only if all of its members are). If the function still performs exactly the same events and now some B is strictly before some A (same block earlier, or B's block dominates A's), two steps have changed places (two calls of functions that write, send and start nothing commute and are not reported) — a check after the use, a bookkeeping update before the test it depends on, a strip before the policy that may set the attribute", min)
 	var base []callSig
 	b, err := os.ReadFile(filepath.Join(homeDir(), baselineFile))
 	if err != nil || json.Unmarshal(b, &base) != nil {
@@ -603,8 +632,8 @@ func (c *Ctx) ruleOrderRatchet(rule string, pkgs []string, fileFilter func(file 
 				sameEvents = false
 			}
 		}
-		if !sameEvents || len(uc) != bs.NEvents {
-			r.Add(oblT(rule, bs.Func, cons, bs.File, "ok", "the function's calls and stores changed in number: not decided", nil, true))
+		if !sameEvents || countEvents(uc) != bs.NEvents {
+			r.Add(oblT(rule, bs.Func, cons, bs.File, "ok", "the function's calls and stores changed: not decided", nil, true))
 			continue
 		}
 		swapped := ""
@@ -613,17 +642,27 @@ func (c *Ctx) ruleOrderRatchet(rule string, pkgs []string, fileFilter func(file 
 			if i < 0 {
 				continue
 			}
-			a, okA := uc[pr[:i]]
-			bb, okB := uc[pr[i+4:]]
+			as, okA := uc[pr[:i]]
+			bbs, okB := uc[pr[i+4:]]
 			if !okA || !okB {
 				continue
 			}
-			if executesBefore(bb, a) {
-				if c.effectFreeEvent(a) && c.effectFreeEvent(bb) {
-					continue // two reads that change nothing commute
+			for _, a := range as {
+				for _, bb := range bbs {
+					if swapped != "" || !executesBefore(bb, a) {
+						continue
+					}
+					if c.effectFreeEvent(a) && c.effectFreeEvent(bb) {
+						continue // two reads that change nothing commute
+					}
+					short := func(k string) string {
+						if j := strings.LastIndex(k, "~"); j > 0 {
+							return k[:j]
+						}
+						return k
+					}
+					swapped = short(pr[i+4:]) + " now runs before " + short(pr[:i]) + " (" + c.P.InstrPos(bb) + ")"
 				}
-				swapped = pr[i+4:] + " now runs before " + pr[:i] + " (" + c.P.InstrPos(bb) + ")"
-				break
 			}
 		}
 		if swapped == "" {
